@@ -143,6 +143,7 @@ class POP(BaseModelSingleSet):
             feature_name=feature_name,
             compute_eagerly=compute,
             random_state=random_state,
+            solver=solver,
             solver_kwargs=solver_kwargs,
         )
 
